@@ -16,7 +16,7 @@ Definition lib_established (k : fk_case) : bool :=
 
 Definition combine (k : fk_case) (prop_ok : bool) : N :=
   if panicked k then 4 else
-  (if fk_corresponds k then 0 else 1) + (if prop_ok then 0 else 2).
+  (if fk_corresponds k && fk_corresponds_c k then 0 else 1) + (if prop_ok then 0 else 2).
 
 (* ---- C01 ---- *)
 Definition c01_in_scope (k : fk_case) : bool := lib_established k && filt_nu k && wf_b (k_hist k).
